@@ -16,6 +16,8 @@ import (
 	"reflect"
 	"sort"
 	"strings"
+	"syscall"
+	"time"
 
 	"gitlab.com/gomidi/midi/v2/internal/verifh/disturb"
 	"gitlab.com/gomidi/midi/v2/internal/verifh/engine"
@@ -199,6 +201,70 @@ func pipeSource(data []byte, want result, label string) {
 	}
 }
 
+// fifoSource: the bytes come out of a named pipe in the file system and are
+// read with smf.ReadFile (a path whose size the file system does not know; the
+// writer delivers in two pieces). Only for inputs that are valid files: what
+// ReadFile makes of broken ones is not compared here.
+var fifoN int
+
+func fifoSource(data []byte, want result, label string) {
+	if want.kind != "none" || os.Getenv("VERIF_WORK") == "" {
+		return
+	}
+	fifoN++
+	path := fmt.Sprintf("%s/c09-fifo-%d-%d", os.Getenv("VERIF_WORK"), os.Getpid(), fifoN)
+	os.Remove(path)
+	if err := syscall.Mkfifo(path, 0o600); err != nil {
+		ctx.Add("fifo_not_available", 1)
+		return
+	}
+	defer os.Remove(path)
+	wrote := make(chan struct{})
+	go func() {
+		defer close(wrote)
+		w, err := os.OpenFile(path, os.O_WRONLY, 0) // waits for the reader
+		if err != nil {
+			return
+		}
+		h := len(data) / 2
+		w.Write(data[:h])
+		w.Write(data[h:])
+		w.Close()
+	}()
+	done := make(chan result, 1)
+	go func() {
+		var s *smf.SMF
+		var rerr error
+		c := engine.Catch(func() { s, rerr = smf.ReadFile(path) })
+		done <- summarize(s, rerr, c)
+	}()
+	var got result
+	select {
+	case got = <-done:
+	case <-time.After(60 * time.Second):
+		ctx.NotExhaustive("ReadFile on a named pipe did not return within 60 s (" + label + ")")
+		return
+	}
+	// a reader that never opened the pipe leaves the writer waiting: let it go
+	if r, err := os.OpenFile(path, os.O_RDONLY|syscall.O_NONBLOCK, 0); err == nil {
+		<-wrote
+		r.Close()
+	}
+	ctx.Eval()
+	ctx.Add("fifo_reads", 1)
+	if reflect.DeepEqual(got, want) {
+		return
+	}
+	sig := "fifo:" + want.kind + "->" + got.kind
+	if got.kind == "panic" {
+		sig = got.sig + ":fifo"
+	}
+	if ctx.SigCount(sig) < 10 {
+		ctx.Violation(sig, map[string]interface{}{"kind": "fifo", "file": engine.Hex(data), "family": label,
+			"what": fmt.Sprintf("reading from memory gives %s, smf.ReadFile on a named pipe that delivers the same bytes gives %s", want.kind, got.kind)})
+	}
+}
+
 // offsetSources: the file sits behind a prefix in a seekable source that is
 // positioned at the file's first byte when it is handed over (a bytes.Reader,
 // an io.SectionReader inside a larger one, an os.File).
@@ -282,6 +348,7 @@ func fragmentations(data []byte, label string, pairs, triples, quads bool) {
 	wrapped(data, want, label)
 	if len(data) < 60000 {
 		pipeSource(data, want, label)
+		fifoSource(data, want, label)
 		offsetSources(data, want, label)
 	}
 	for _, eof := range []bool{false, true} {
@@ -526,6 +593,10 @@ func replay() {
 	}
 	if m["kind"] == "offset-source" {
 		offsetSources(data, want, "replay")
+		ctx.Finish("replay")
+	}
+	if m["kind"] == "fifo" {
+		fifoSource(data, want, "replay")
 		ctx.Finish("replay")
 	}
 	if m["kind"] == "pipe" {
